@@ -57,3 +57,55 @@ func VerifC36_sort() {
 	}
 	verifrt.Reach("C36.sort.end")
 }
+
+// VerifC36_complete: builder-produced lists. A script of 4 (quick) / 5 (thorough) steps, each one
+// of: plain text, an italic block, a code block, a space-only plain block, opening a token, or
+// applying the most recently opened token as bold (the way the HTML/Markdown parsers add the
+// outer entity after the inner ones). Claim: Builder.Complete returns the entities ordered by
+// ascending offset and, for equal offsets, by descending length.
+func VerifC36_complete() {
+	steps := 4
+	if verifrt.Tier() == 1 {
+		steps = 5
+	}
+	b := &Builder{}
+	var open []Token
+	for s := 0; s < steps; s++ {
+		switch verifrt.Fork("step", 6) {
+		case 0:
+			b.Plain("ab ")
+		case 1:
+			b.Italic("cd")
+		case 2:
+			b.Code("e f")
+		case 3:
+			b.Plain(" ")
+		case 4:
+			open = append(open, b.Token())
+		case 5:
+			if len(open) > 0 {
+				open[len(open)-1].Apply(b, Bold())
+				open = open[:len(open)-1]
+			}
+		}
+	}
+	_, es := b.Complete()
+	trig := false
+	for i := range es {
+		for j := range es {
+			if es[i].GetOffset() > es[j].GetOffset() && es[i].GetLength() > es[j].GetLength() {
+				trig = true
+			}
+		}
+	}
+	verifrt.Class("C36-less-no-tie", trig)
+	for i := 0; i+1 < len(es); i++ {
+		a, c := es[i], es[i+1]
+		ok := a.GetOffset() < c.GetOffset() || (a.GetOffset() == c.GetOffset() && a.GetLength() >= c.GetLength())
+		verifrt.Assert(ok, "C36.complete.ordered")
+	}
+	if len(es) >= 2 {
+		verifrt.Reach("C36.complete.several")
+	}
+	verifrt.Reach("C36.complete.end")
+}
